@@ -69,6 +69,16 @@ def history_cases(draw, max_leaves):
             "encode_first": draw(st.booleans())}
 
 
+@st.composite
+def label_cases(draw, max_leaves):
+    c = draw(cases(max_leaves))
+    c["collide"] = draw(st.lists(st.tuples(st.integers(0, 30), st.integers(0, 30), st.integers(0, 2)), min_size=1, max_size=3))
+    c["variant"] = draw(st.sampled_from(["prune_taxa_with_labels", "retain_taxa_with_labels", "extract_tree_with_taxa_labels",
+                                        "extract_tree_without_taxa_labels", "prune_taxa", "retain_taxa", "filter_leaf_nodes"]))
+    c["ub"] = False
+    return c
+
+
 def choose_K(rt, kclass, ksel):
     leaves = sorted(rt.leafset(), key=lambda s: int(s[1:]))
     n = len(leaves)
@@ -124,7 +134,24 @@ def check_case(ctx, case):
     n = RefTree.from_spec(spec).n_leaves()
     ns, taxa, bits = shapes.build_namespace(shapes.plain_history(n))
     tree = shapes.build_tree(spec, ns, taxa, is_rooted=case["rooted"])
-    run_variant(ctx, tree, ns, bits, case, spec)
+    run_variant(ctx, tree, ns, bits, case, spec, taxa=taxa)
+
+
+def check_labels(ctx, case):
+    """Namespaces in which several taxa carry the same label (exact duplicates or case variants): the by-label
+    variants must act on EVERY taxon matching a named label, exactly like the by-taxon variants given those taxa."""
+    spec = case["spec"]
+    n = RefTree.from_spec(spec).n_leaves()
+    labels = ["T%d" % i for i in range(n)]
+    for (i, j, how) in case["collide"]:
+        i, j = i % n, j % n
+        if i != j:
+            labels[j] = labels[i] if how == 0 else (labels[i].lower() if how == 1 else labels[i].upper())
+    ns, taxa, bits = shapes.build_namespace(shapes.plain_history(n), labels)
+    tree = shapes.build_tree(spec, ns, taxa, is_rooted=case["rooted"])
+    if len(set(l.lower() for l in labels)) < n:
+        ctx.cls("labels:namespace_with_colliding_labels")
+    run_variant(ctx, tree, ns, bits, case, spec, taxa=taxa, labels=labels)
 
 
 def check_history(ctx, case):
@@ -145,7 +172,7 @@ def check_history(ctx, case):
         c = dict(stp)
         c["rooted"] = tree.is_rooted
         c["lenpat"] = case["lenpat"]
-        res = run_variant(ctx, tree, ns, bits, c, spec, step=k)
+        res = run_variant(ctx, tree, ns, bits, c, spec, step=k, taxa=taxa)
         if res is None:
             return
         if c["variant"] in EXTRACT and stp.get("continue_on_copy"):
@@ -153,21 +180,30 @@ def check_history(ctx, case):
     ctx.cls("history:%d_steps" % len(case["steps"]))
 
 
-def run_variant(ctx, tree, ns, bits, case, spec, step=None):
+def run_variant(ctx, tree, ns, bits, case, spec, step=None, taxa=None, labels=None):
     import dendropy
     from dendropy.utility.error import SeedNodeDeletionException
     variant = case["variant"]
     su, ub = case["su"], case["ub"]
     rooted_flag = case["rooted"]
-    pre, problems = snapshot(tree)
+    # taxon identity in the model is "T<index>" whatever the labels are (labels may collide)
+    idx_of = dict((id(t), i) for i, t in taxa.items())
+    tkey = lambda t: "T%d" % idx_of[id(t)]
+    real = lambda ids: sorted(set((labels[int(x[1:])] if labels is not None else x) for x in ids))
+    pre, problems = snapshot(tree, taxon_key=tkey)
     if problems:
         raise runner.HarnessError(repr(problems))
     src = pre
     n = src.n_leaves()
     K = choose_K(src, "coclade" if variant == "prune_subtree" else case["kclass"], case["ksel"])
     full = src.leafset()
+    if labels is not None:
+        # a label names every taxon carrying it (under the namespace's case-insensitive rule): close K accordingly
+        low = lambda x: labels[int(x[1:])].lower()
+        keepl = set(low(x) for x in K)
+        K = frozenset(x for x in full if low(x) in keepl)
     comp = full - K
-    label_taxon = dict((t.label, t) for t in ns)
+    label_taxon = dict(("T%d" % i, t) for i, t in taxa.items())
     Ktaxa = [label_taxon[l] for l in sorted(K)]
     Ctaxa = [label_taxon[l] for l in sorted(comp)]
     # partially missing lengths: unifurcation suppression hands a length down to a length-less child (None counts as
@@ -192,15 +228,15 @@ def run_variant(ctx, tree, ns, bits, case, spec, step=None):
     elif variant == "prune_taxa":
         ctx.call(key, tree.prune_taxa, Ctaxa, update_bipartitions=ub, suppress_unifurcations=su)
     elif variant == "prune_taxa_with_labels":
-        ctx.call(key, tree.prune_taxa_with_labels, sorted(comp), update_bipartitions=ub, suppress_unifurcations=su)
+        ctx.call(key, tree.prune_taxa_with_labels, real(comp), update_bipartitions=ub, suppress_unifurcations=su)
     elif variant == "retain_taxa":
         ctx.call(key, tree.retain_taxa, Ktaxa, update_bipartitions=ub, suppress_unifurcations=su)
     elif variant == "retain_taxa_with_labels":
-        ctx.call(key, tree.retain_taxa_with_labels, sorted(K), update_bipartitions=ub, suppress_unifurcations=su)
+        ctx.call(key, tree.retain_taxa_with_labels, real(K), update_bipartitions=ub, suppress_unifurcations=su)
     elif variant == "filter_leaf_nodes":
         Kset = set(K)
         removed_reported = ctx.call(key, tree.filter_leaf_nodes,
-                                    lambda nd: nd.taxon is not None and nd.taxon.label in Kset,
+                                    lambda nd: nd.taxon is not None and tkey(nd.taxon) in Kset,
                                     update_bipartitions=ub, suppress_unifurcations=su)
     elif variant == "prune_leaves_without_taxa":
         for i in pre.leaves():
@@ -212,18 +248,18 @@ def run_variant(ctx, tree, ns, bits, case, spec, step=None):
     else:
         Kset = set(K)
         if variant == "extract_tree":
-            result_tree = ctx.call(key, tree.extract_tree, node_filter_fn=lambda nd: nd.taxon is not None and nd.taxon.label in Kset,
+            result_tree = ctx.call(key, tree.extract_tree, node_filter_fn=lambda nd: nd.taxon is not None and tkey(nd.taxon) in Kset,
                                    suppress_unifurcations=su)
         elif variant == "extract_tree_with_taxa":
             result_tree = ctx.call(key, tree.extract_tree_with_taxa, Ktaxa, suppress_unifurcations=su)
         elif variant == "extract_tree_with_taxa_labels":
-            result_tree = ctx.call(key, tree.extract_tree_with_taxa_labels, sorted(K), suppress_unifurcations=su)
+            result_tree = ctx.call(key, tree.extract_tree_with_taxa_labels, real(K), suppress_unifurcations=su)
         elif variant == "extract_tree_without_taxa":
             result_tree = ctx.call(key, tree.extract_tree_without_taxa, Ctaxa, suppress_unifurcations=su)
         elif variant == "extract_tree_without_taxa_labels":
-            result_tree = ctx.call(key, tree.extract_tree_without_taxa_labels, sorted(comp), suppress_unifurcations=su)
+            result_tree = ctx.call(key, tree.extract_tree_without_taxa_labels, real(comp), suppress_unifurcations=su)
 
-    got = treechecks.wellformed(ctx, result_tree, "result_well_formed", "C08.wellformed:" + variant, tag)
+    got = treechecks.wellformed(ctx, result_tree, "result_well_formed", "C08.wellformed:" + variant, tag, taxon_key=tkey)
     inplace = variant in INPLACE
     want_s = src.restrict(K, suppress=True)
     want_u = src.restrict(K, suppress=False)
@@ -253,7 +289,7 @@ def run_variant(ctx, tree, ns, bits, case, spec, step=None):
                   "C08.removed:" + variant, lambda: "%s reported %d nodes, expected %d" % (tag, len(got_removed), len(want_removed)))
     if not inplace:
         # source untouched (structure, lengths, labels, taxa, node identities)
-        post, problems = snapshot(tree)
+        post, problems = snapshot(tree, taxon_key=tkey)
         same_src = (not problems and post.canon(ordered=True, lengths=True, labels=True) == pre.canon(ordered=True, lengths=True, labels=True)
                     and [id(o) for o in post.obj] == [id(o) for o in pre.obj] and tree.is_rooted is rooted_flag)
         ctx.check(same_src, "extraction_leaves_source_unchanged", "C08.source_unchanged:" + variant, d)
@@ -314,7 +350,7 @@ def check_exh(ctx, item):
     check_case(ctx, case)
 
 
-SUBCHECKS = {"random": check_case, "exhaustive": check_exh, "history": check_history}
+SUBCHECKS = {"random": check_case, "exhaustive": check_exh, "history": check_history, "labels": check_labels}
 
 
 def run(ctx):
@@ -323,3 +359,4 @@ def run(ctx):
     runner.run_given(ctx, "random", cases(9 if quick else 25), check_case, total // ctx.nshards)
     runner.run_items(ctx, "exhaustive", exhaustive_items(5 if quick else 6), check_exh)
     runner.run_given(ctx, "history", history_cases(9 if quick else 20), check_history, (2000 if quick else 30000) // ctx.nshards)
+    runner.run_given(ctx, "labels", label_cases(8 if quick else 16), check_labels, (1600 if quick else 20000) // ctx.nshards)
